@@ -79,9 +79,10 @@ def filter_spec(eng, R, S):
     """R2: R is S cut after its first return/raise/break/continue (or all of S if there is none)."""
     j = z3.Int("j")
     n, k = z3.Length(S), z3.Length(R)
+    i = z3.Int("i")
     return z3.And(
         k <= n,
-        R == z3.SubSeq(S, 0, k),
+        z3.ForAll([i], z3.Implies(z3.And(i >= 0, i < k), R[i] == S[i])),  # R is the prefix of S of length k (elementwise)
         z3.ForAll([j], z3.Implies(z3.And(j >= 0, j < k - 1), z3.Not(term(eng, S[j])))),
         z3.Implies(k < n, z3.And(k >= 1, term(eng, S[k - 1]))),
     )
@@ -186,7 +187,153 @@ def build(active_known=frozenset()):
 
     c.replay(rp_r5)
     c.replay_without_model = True
+    add_visitors(pack, active_known)
     return pack
+
+
+# ----------------------------------------------------------------------------- the NodeTransformer methods
+CHILD_FIELDS = ("body", "orelse", "finalbody", "handlers", "test", "type", "name", "args", "decorator_list", "returns", "value", "func", "keywords", "names")
+
+
+def add_visitors(pack, active_known):
+    from basilisp.lang.compiler import optimizer
+
+    Opt = optimizer.PythonASTOptimizer
+    mod = "basilisp.lang.compiler.optimizer"
+
+    def vsetup(eng, st):
+        setup(eng, st)
+
+        def generic_visit(e, s, args, k):
+            """Trusted contract of ast.NodeTransformer.generic_visit: the children of the node are replaced by the
+            results of visiting them (here: arbitrary, by induction each is a catalogue rewrite of the old child);
+            lists of children are rebuilt in place; the node itself is returned."""
+            self_, node = args
+            e.havoc_heap(s, [f for f in CHILD_FIELDS])
+            s.lists = z3.Const(V.fresh_name("lists_after_generic_visit"), s.lists.sort())
+            s.ghost["gv"] = s.copy()
+            yield s, node
+
+        eng.method_models[(Opt, "generic_visit")] = Model("NodeTransformer.generic_visit", generic_visit)
+
+        # _filter_dead_code is used through its contract (proved above)
+        def fdc(e, s, args, k):
+            nodes = args[0]
+            r = e.alloc(s, list)
+            R = V.fresh_val("filtered")
+            seq = z3.Const(V.fresh_name("filtered_seq"), V.ValSeq)
+            s.lists = z3.Store(s.lists, V.Val.a(r.t), seq)
+            s.assume(filter_spec(e, seq, z3.Select(s.lists, V.Val.a(e.lift(nodes, s)))))
+            yield s, r
+
+        eng.models[id(optimizer._filter_dead_code)] = Model("_filter_dead_code (by contract)", fdc)
+
+    def gv(a):
+        return a.post.st.ghost["gv"]
+
+    def filtered(a, result_list, old_list_ref):
+        """result_list (a list ref in the post state) is the R2-filter of the list the node had after generic_visit"""
+        g = gv(a)
+        return filter_spec(a.eng, lst(a.post.st, result_list), lst(g, old_list_ref))
+
+    def visitor(name, cls):
+        c = pack.contract(f"{mod}:PythonASTOptimizer.{name}")
+        c.param("self", OBJ(Opt)).param("node", OBJ(cls))
+        c.setup(vsetup)
+        c.raises()
+        return c
+
+    # ---- visit_While: R0 + R2 on both bodies
+    c = visitor("visit_While", ast.While)
+    c.ensures("a While with the same test whose body and orelse are the R2-filtered bodies",
+              lambda a: z3.And(exact(a.eng, a.result, ast.While), fld(a.post.st, a.result, "test") == fld(gv(a), a.node, "test"),
+                               filtered(a, fld(a.post.st, a.result, "body"), fld(gv(a), a.node, "body")),
+                               filtered(a, fld(a.post.st, a.result, "orelse"), fld(gv(a), a.node, "orelse"))))
+
+    # ---- visit_Try
+    c = visitor("visit_Try", ast.Try)
+    c.ensures("a Try with the same handlers whose body, orelse and finalbody are R2-filtered",
+              lambda a: z3.And(exact(a.eng, a.result, ast.Try), fld(a.post.st, a.result, "handlers") == fld(gv(a), a.node, "handlers"),
+                               *[filtered(a, fld(a.post.st, a.result, f), fld(gv(a), a.node, f)) for f in ("body", "orelse", "finalbody")]))
+
+    # ---- visit_ExceptHandler
+    c = visitor("visit_ExceptHandler", ast.ExceptHandler)
+    c.ensures("an ExceptHandler with the same type and name whose body is R2-filtered",
+              lambda a: z3.And(exact(a.eng, a.result, ast.ExceptHandler), fld(a.post.st, a.result, "type") == fld(gv(a), a.node, "type"),
+                               fld(a.post.st, a.result, "name") == fld(gv(a), a.node, "name"), filtered(a, fld(a.post.st, a.result, "body"), fld(gv(a), a.node, "body"))))
+
+    # ---- visit_Expr: R1
+    c = visitor("visit_Expr", ast.Expr)
+    c.ensures("R1: a statement that is a bare constant or name is dropped, every other expression statement is returned unchanged",
+              lambda a: z3.If(z3.Or(isa(a.eng, fld(a.pre.st, a.node, "value"), ast.Constant), isa(a.eng, fld(a.pre.st, a.node, "value"), ast.Name)), V.is_none(a.result), a.result == a.node))
+    c.modifies()
+
+    # ---- visit_If: R2, R3, R3'
+    c = visitor("visit_If", ast.If)
+
+    def if_post(a):
+        g, st, r = gv(a), a.post.st, a.result
+        B0, E0 = lst(g, fld(g, a.node, "body")), lst(g, fld(g, a.node, "orelse"))
+        test = fld(g, a.node, "test")
+        RB, RE = lst(st, fld(st, r, "body")), lst(st, fld(st, r, "orelse"))
+        # (the R2-filter of a list is empty exactly when the list is empty: it always keeps the first statement)
+        keep = z3.And(exact(a.eng, r, ast.If), fld(st, r, "test") == test, filter_spec(a.eng, RB, B0), filter_spec(a.eng, RE, E0))
+        nt = fld(st, r, "test")
+        flip = z3.And(exact(a.eng, r, ast.If), exact(a.eng, nt, ast.UnaryOp), exact(a.eng, fld(st, nt, "op"), ast.Not), fld(st, nt, "operand") == test,
+                      filter_spec(a.eng, RB, E0), z3.Length(RE) == 0)
+        drop_ok = V.is_none(r)
+        if "C15-if-drops-test" not in active_known:
+            # R3 as written in the property: the `if` may go, its test's evaluation has to stay
+            drop_ok = z3.And(exact(a.eng, r, ast.Expr), fld(st, r, "value") == test)
+        return z3.If(z3.Length(B0) > 0, keep, z3.If(z3.Length(E0) > 0, flip, drop_ok))
+
+    c.ensures("R2 on both branches; R3' flips an empty body; R3 drops an if with two empty branches while keeping its test's evaluation", if_post)
+
+    def rp_if(m, ctx, ob):
+        return IF_REPLAY
+
+    c.replay(rp_if)
+    c.replay_without_model = True
+
+    # ---- visit_Call: children first, then R5 on operator calls
+    c = visitor("visit_Call", ast.Call)
+
+    def call_setup(eng, st):
+        vsetup(eng, st)
+        opt_res = z3.Function("optimize_operator_call", V.Val, V.Val, V.Val)
+
+        def ooc(e, s, args, k):
+            # the single-dispatch entry (proved above for Attribute callees; identity for every other callee type)
+            fn, node = e.lift(args[0], s), e.lift(args[1], s)
+            s.ghost["ooc_args"] = (fn, node)
+            r = opt_res(fn, node)
+            s.assume(e.external_ref_fact(s, r))
+            yield s, SV(r)
+
+        eng.models[id(optimizer._optimize_operator_call)] = Model("_optimize_operator_call (by contract)", ooc)
+        eng.opt_res = opt_res
+
+    c.setup_.clear()
+    c.setup(call_setup)
+    c.ensures("the operator rewrite is applied to the node's callee and the node after its children were visited",
+              lambda a: a.result == a.eng.opt_res(fld(gv(a), a.node, "func"), a.node))
+
+
+IF_REPLAY = r'''
+import ast
+from basilisp.lang.compiler import optimizer
+src = "trace = []\ndef tr(x):\n    trace.append(x)\n    return x\nif tr(1):\n    None\nelse:\n    None\n"
+out = []
+for optimise in (False, True):
+    tree = ast.parse(src)
+    if optimise:
+        tree = ast.fix_missing_locations(optimizer.PythonASTOptimizer().visit(tree))
+    env = {}
+    exec(compile(tree, "<c15-if>", "exec"), env)
+    out.append(env["trace"])
+print("effects of `if tr(1): <empty> else: <empty>`: unoptimised", out[0], " optimised", out[1])
+print("REPRODUCED" if out[0] != out[1] else "not reproduced")
+'''
 
 
 R5_REPLAY = r'''
